@@ -22,7 +22,7 @@ HELPERS = [
     ("st2tot2_tpld", "s", "s", False, "t", "st2tot2::tpld(q) is the Jacobian of p |-> p*q (symmetric p, q; unsymmetric product)", ""),
     ("st2tot2_tprd", "s", "s", False, "t", "st2tot2::tprd(q) is the Jacobian of p |-> q*p", ""),
     ("tensor_det", "t", "-", False, "1", "computeDeterminantDerivative(tensor) is the gradient of det(F)", "b"),
-    ("tensor_det2", "t", "-", False, "t", "computeDeterminantSecondDerivative(tensor) is the Jacobian of computeDeterminantDerivative(tensor)", "b"),
+    ("tensor_det2", "t", "-", False, "t", "computeDeterminantSecondDerivative(tensor) is the Jacobian of computeDeterminantDerivative(tensor)", "f"),
     ("dCdF", "t", "-", False, "s", "t2tost2::dCdF(F) is the Jacobian of the right Cauchy-Green tensor F^T.F", "b"),
     ("dBdF", "t", "-", False, "s", "t2tost2::dBdF(F) is the Jacobian of the left Cauchy-Green tensor F.F^T", "b"),
     ("tpld", "t", "t", False, "t", "t2tot2::tpld(q) is the Jacobian of p |-> p*q", "b"),
@@ -32,7 +32,7 @@ HELPERS = [
     ("rate_of_deformation", "t", "t", True, "s", "computeRateOfDeformationDerivative(F) is the Jacobian of dF |-> sym(dF.F^-1) (det F <> 0)", "d"),
     ("spin_rate", "t", "t", True, "t", "computeSpinRateDerivative(F) is the Jacobian of dF |-> skew(dF.F^-1) (det F <> 0)", "e"),
 ]
-GROUPS = ["", "b", "c", "d", "e"]
+GROUPS = ["", "b", "c", "d", "e", "f"]
 
 
 def size(k, N):
